@@ -27,7 +27,7 @@ fn spec(tier: Tier) -> CheckSpec {
 		level: "exploration",
 		rule: format!(
 			"exhaustive: (gen) every program of the whole-grammar generator with <= {} non-literal constructs (every unary/binary operator, tailstrict calls, slices, comprehensions, locals with several bindings, asserts, object locals, methods, imports, all visibilities) formatted with {}: the formatter either declines or prints text that the evaluator's parser accepts with the same tree up to positions and the two documented sugar equivalences; \
-			(comments) every program with <= {} constructs with every single insertion of {{block comment, line comment on its own line, trailing line comment, hash comment}} at every token boundary, and with a block / line comment at every boundary at once: same tree, and the output's comment sequence equals the input's (order and text, whitespace-trimmed); \
+			(comments) every program with <= {} constructs with every single insertion of {{block comment, line comment on its own line, trailing line comment, hash comment, empty block comment, blank block comment, doc comment, multi-line block comment}} at every token boundary, and with a block / line comment at every boundary at once: same tree, and the output's comment sequence equals the input's (order and text, whitespace-trimmed); \
 			(strings) every string literal of <= 2 items over a 17-item escape alphabet in double, single and both verbatim quotings, every text block of <= 2 lines over {{a, empty, tab+b, spaces+c, spaces only}} x block indentation {{space, tab}} x {{|||, |||-}}, alone and as an object field value: same decoded value; plus the repository's parser/formatter/suite inputs. non-trivial = distinct (text, indentation) that the formatter formats",
 			tier.q(3, 4),
 			tier.q("indentation 2", "indentation tabs, 2 and 4"),
@@ -121,7 +121,17 @@ pub fn check_program(rep: &mut Report, text: &str, indent: u8, deco: Option<(&st
 			let (cin, cout) = (comments(text), comments(out));
 			if cin != cout {
 				outcome.push_str("+comments");
-				let symptom = if cout.len() < cin.len() {
+				// comments of the input that are missing in the output
+				let mut missing = cin.clone();
+				for c in &cout {
+					if let Some(i) = missing.iter().position(|m| m == c) {
+						missing.remove(i);
+					}
+				}
+				let only_empty = !missing.is_empty() && missing.iter().all(|m| m == "/*");
+				let symptom = if only_empty && cout.len() < cin.len() {
+					"an empty block comment is dropped"
+				} else if cout.len() < cin.len() {
 					"a comment is lost"
 				} else if cout.len() > cin.len() {
 					"a comment is duplicated"
@@ -138,7 +148,7 @@ pub fn check_program(rep: &mut Report, text: &str, indent: u8, deco: Option<(&st
 				};
 				rep.violation(Violation {
 					// every comment kind shares the fate of its position: keyed by the neighbouring token groups only
-					class: format!("{symptom}{}", deco.map_or(String::new(), |(_, prev, next)| format!(" [between {} and {}]", kind_group(prev), kind_group(next)))),
+					class: if only_empty { symptom.to_owned() } else { format!("{symptom}{}", deco.map_or(String::new(), |(_, prev, next)| format!(" [between {} and {}]", kind_group(prev), kind_group(next)))) },
 					witness: text.to_owned(),
 					detail: format!("indentation {}\nformatted:\n{out}comments of the input:  {cin:?}\ncomments of the output: {cout:?}", indent_name(indent)),
 					cost,
